@@ -89,7 +89,8 @@ def firstDiff (a b : List Leaf) : String :=
 def precOps (stat : Bool) (line : String) : String :=
   match splitBar (Driver.tokens line) with
   | [hdr, ta, tb, tr, tx] =>
-    match hdr, parseGeomOpt ta, parseGeomOpt tb with
+    -- an optional fifth header token `pre=<hex>` (the input already carries a precision model of that grid size) does not change the contract
+    match hdr.take 4, parseGeomOpt ta, parseGeomOpt tb with
     | ["O", op, flags, gh], some (some A), some Bo =>
       match parseOp op, flags.toNat?, Driver.parseHex64 gh with
       | some (sop, isSP), some fl, some gbits =>
